@@ -33,21 +33,51 @@ EXPLANATION = (
 ASSUMPTIONS = ['the hex grammar is read with yrsa/bison.py and matched to hex_yyparse through #line']
 
 
+_MIRROR = {'<': '>', '>': '<', '<=': '>=', '>=': '<=', '==': '==', '!=': '!='}
+_NEGATE = {'<': '>=', '>=': '<', '>': '<=', '<=': '>', '==': '!=', '!=': '=='}
+
+
 def _gap_sites(f):
-    """`a + S->chain_gap_max >= o` comparisons in f"""
+    """comparisons between `end + S->chain_gap_{max,min}` and an offset, whichever side the
+    sum is written on: [(node, kind, end text, S text, rel, off text)] with rel the relation
+    `end + gap  rel  off`"""
+    from .C14 import _linsum
     out = []
     for n in f.all_nodes():
-        if n['k'] == 'bin' and n['op'] in ('>=', '>', '<', '<=', '==', '!='):
-            l = cu.strip_casts(f, f.kid(n, 0))
-            if l is not None and l['k'] == 'bin' and l['op'] == '+':
-                b = cu.strip_casts(f, f.kid(l, 1))
-                if b is not None and b['k'] == 'member' and b['fld'] in ('chain_gap_max', 'chain_gap_min'):
-                    out.append((n, canon(f, f.kid(l, 0)), canon(f, f.kid(b, 0)), b['fld'],
-                                n['op'], canon(f, f.kid(n, 1))))
+        if n['k'] != 'bin' or n['op'] not in _MIRROR:
+            continue
+        sides = [cu.strip_casts(f, f.kid(n, 0)), cu.strip_casts(f, f.kid(n, 1))]
+        for i in (0, 1):
+            g, o = sides[i], sides[1 - i]
+            if g is None or o is None:
+                continue
+            gaps = [x for x in f.walk(g) if x['k'] == 'member' and x['fld'] in ('chain_gap_max', 'chain_gap_min')]
+            if len(gaps) != 1 or any(x['k'] == 'member' and x['fld'].startswith('chain_gap') for x in f.walk(o)):
+                continue
+            ls = _linsum(f, g)
+            if ls is None:
+                continue
+            gtxt = canon(f, gaps[0])
+            if ls[0].get(gtxt) != 1 or ls[1] != 0:
+                continue
+            rest = sorted(t for t in ls[0] if t != gtxt)
+            if len(rest) != len([t for t in rest if ls[0][t] == 1]):
+                continue
+            rel = n['op'] if i == 0 else _MIRROR[n['op']]
+            out.append((n, 'max' if gaps[0]['fld'] == 'chain_gap_max' else 'min', ' + '.join(rest),
+                        canon(f, f.kid(gaps[0], 0)), rel, canon(f, o)))
+            break
     return out
 
 
 def r2_1(ctx):
+    """the two pieces of a split string are joined under exactly
+    end + gap_max >= off && end + gap_min <= off, however the test is written: something
+    in the function is reached only with both relations established (as one `&&`, as two
+    early `continue`s, with the operands on either side); an unconfirmed match is dropped
+    only under end + gap_max < off"""
+    from .. import paths
+    from .C14 import rcanon
     prog = ctx.prog
     n_sites = 0
     for f in prog.fns():
@@ -56,73 +86,121 @@ def r2_1(ctx):
         sites = _gap_sites(f)
         if not sites:
             continue
-        # group the comparisons by the `&&` that joins them
-        joins = {}
-        singles = []
-        for s in sites:
-            par = f.parent(s[0])
-            if par is not None and par['k'] == 'bin' and par['op'] == '&&':
-                joins.setdefault(par['i'], []).append(s)
-            else:
-                singles.append(s)
+        def loop_of(n):
+            for a in f.ancestors(n):
+                if a['k'] in ('while', 'for', 'do'):
+                    return a['i']
+            return -1
+        # one group per (end, string, offset) and enclosing loop: the same test may guard two
+        # different passes over the list
+        sites = [s_[:2] + (s_[2], s_[3], s_[4], s_[5]) + (loop_of(s_[0]),) for s_ in sites]
+        groups = {}
+        for s_ in sites:
+            groups.setdefault((s_[2], s_[3], s_[5], s_[6]), []).append(s_)
+        by_node = {s_[0]['i']: s_ for s_ in sites}
+        best = {}
+
+        def step(n, facts):
+            if n['k'] in ('call', 'ret') or (n['k'] == 'bin' and n['op'] == '='):
+                for x in facts:
+                    best.setdefault((x[0], x[1]), set())
+                have = {}
+                for x in facts:
+                    have.setdefault(x[0], set()).add((x[1], x[2]))
+                for g_, rels in have.items():
+                    if ('max', '>=') in rels and ('min', '<=') in rels:
+                        best.setdefault(g_, set()).add(n['i'])
+            if n['k'] == 'bin' and n['op'].endswith('=') and n['op'] not in ('==', '!=', '<=', '>='):
+                l = canon(f, f.kid(n, 0))
+                return frozenset(x for x in facts if l not in (x[0][0].split(' + ') + [x[0][2]]) and
+                                 not x[0][0].startswith(l + '->'))
+            if n['k'] == 'ret':
+                return None
+            return facts
+
+        def edge(b, term, cond, idx, succ, facts):
+            pol = paths.branch_polarity(f, term, idx)
+            if pol is None or cond is None:
+                return facts
+            c, p2 = paths.normalise_cond(f, cond, pol)
+            c = cu.strip_casts(f, c) if c is not None else None
+            if c is None or c['i'] not in by_node:
+                return facts
+            s_ = by_node[c['i']]
+            rel = s_[4] if p2 else _NEGATE[s_[4]]
+            g_ = (s_[2], s_[3], s_[5], s_[6])
+            return frozenset(x for x in facts if not (x[0] == g_ and x[1] == s_[1])) | {(g_, s_[1], rel)}
+        joins_ok = set()
+        try:
+            paths.explore(f, set(), step, edge, max_states=20000)
+            joins_ok = set(g_ for g_, nodes in best.items() if isinstance(g_, tuple) and len(g_) == 4 and nodes)
+        except paths.Budget:
+            ctx.note('R2.1 %s: state budget exceeded' % f.name)
         k = 0
-        for pid, pair in sorted(joins.items()):
-            n_sites += 1
-            key = '%s:join%d' % (f.name, k)
-            k += 1
-            node = pair[0][0]
-            byfld = {p[3]: p for p in pair}
-            ok = len(pair) == 2 and set(byfld) == set(['chain_gap_max', 'chain_gap_min'])
-            if ok:
-                mx, mn = byfld['chain_gap_max'], byfld['chain_gap_min']
-                ok = mx[4] == '>=' and mn[4] == '<=' and mx[1] == mn[1] and mx[2] == mn[2] and mx[5] == mn[5]
-            ctx.ob('R2.1', key + ':predicate', ok, f.loc(node),
-                   '%s + %s->chain_gap_max >= %s && %s + %s->chain_gap_min <= %s' % (
-                       pair[0][1], pair[0][2], pair[0][5], pair[0][1], pair[0][2], pair[0][5]) if ok else
-                   'the chain-gap test here is %s: it must be end + gap_max >= off && end + gap_min <= '
-                   'off over the same end, string and offset' % ' && '.join(
-                       '%s + %s->%s %s %s' % (p[1], p[2], p[3], p[4], p[5]) for p in pair))
-            if not ok:
-                continue
-            end, S, off = mx[1], mx[2], mx[5]
-            # `end` is offset + match_length of the iterated unconfirmed match
-            defs = [n for n in f.all_nodes() if ((n['k'] == 'bin' and n['op'] == '=' and
-                                                  canon(f, f.kid(n, 0)) == end) or
-                                                 (n['k'] == 'decl' and n['name'] == end and n.get('c')))]
-            good = bool(defs)
-            M = None
-            for d in defs:
-                r = cu.strip_casts(f, f.kid(d, 1) if d['k'] == 'bin' else f.kid(d, 0))
-                if r is None or r['k'] != 'bin' or r['op'] != '+':
-                    good = False
+        for g_, members in sorted(groups.items(), key=lambda kv: min(m[0].get('l', 0) for m in kv[1])):
+            kinds = set(m[1] for m in members)
+            end, S, off = g_[:3]
+            node = members[0][0]
+            if kinds == set(['max', 'min']):
+                n_sites += 1
+                key = '%s:join%d' % (f.name, k)
+                k += 1
+                ok = g_ in joins_ok
+                ctx.ob('R2.1', key + ':predicate', ok, f.loc(node),
+                       '%s + %s->chain_gap_max >= %s && %s + %s->chain_gap_min <= %s guards the join' % (
+                           end, S, off, end, S, off) if ok else
+                       'the chain-gap tests here are %s: nothing is reached under exactly end + gap_max >= '
+                       'off && end + gap_min <= off over the same end, string and offset' % ' ; '.join(
+                           '%s + %s->chain_gap_%s %s %s' % (m[2], m[3], m[1], m[4], m[5]) for m in members))
+                if not ok:
                     continue
-                a, b = cu.strip_casts(f, f.kid(r, 0)), cu.strip_casts(f, f.kid(r, 1))
-                if a is None or b is None or a['k'] != 'member' or b['k'] != 'member' or \
-                        set([a['fld'], b['fld']]) != set(['offset', 'match_length']) or \
-                        canon(f, f.kid(a, 0)) != canon(f, f.kid(b, 0)):
-                    good = False
-                else:
-                    M = canon(f, f.kid(a, 0))
-            ctx.ob('R2.1', key + ':end-is-offset-plus-length', good, f.loc(defs[0]) if defs else f.loc(node),
-                   '%s = %s->offset + %s->match_length' % (end, M, M) if good else
-                   '%s is not computed as offset + match_length of one match at every definition' % end)
-            # the iterated match comes from the unconfirmed list of S->chained_to
-            src = [n for n in f.all_nodes() if n['k'] == 'bin' and n['op'] == '=' and M and
-                   canon(f, f.kid(n, 0)) == M and 'unconfirmed_matches' in canon(f, f.kid(n, 1))]
-            ok2 = bool(src) and any(('[%s->chained_to->idx]' % S) in canon(f, f.kid(n, 1)) for n in src)
-            ctx.ob('R2.1', key + ':joins-preceding-piece', ok2, f.loc(src[0]) if src else f.loc(node),
-                   '%s walks the unconfirmed matches of %s->chained_to' % (M, S) if ok2 else
-                   'the match compared against %s does not come from unconfirmed_matches[%s->chained_to->idx]'
-                   % (S, S))
-        for s in singles:
-            n_sites += 1
-            key = '%s:discard' % f.name
-            ok = s[3] == 'chain_gap_max' and s[4] == '<'
-            ctx.ob('R2.1', key + ':only-when-out-of-reach', ok, f.loc(s[0]),
-                   'an unconfirmed match is dropped only when %s + %s->chain_gap_max < %s' % (s[1], s[2], s[5])
-                   if ok else
-                   'an unconfirmed match is dropped under %s + %s->%s %s %s: matches still reachable '
-                   'by a later piece are lost' % (s[1], s[2], s[3], s[4], s[5]))
+                # `end` is offset + match_length of the iterated unconfirmed match
+                defs = [n for n in f.all_nodes() if ((n['k'] == 'bin' and n['op'] == '=' and
+                                                      canon(f, f.kid(n, 0)) == end) or
+                                                     (n['k'] == 'decl' and n['name'] == end and n.get('c')))]
+                good = bool(defs)
+                M = None
+                parts = end.split(' + ')
+                if not defs and len(parts) == 2:
+                    # the sum itself (a local naming it was looked through)
+                    heads = set(p_.rsplit('->', 1)[0] for p_ in parts if '->' in p_)
+                    flds = set(p_.rsplit('->', 1)[1] for p_ in parts if '->' in p_)
+                    if len(heads) == 1 and flds == set(['offset', 'match_length']):
+                        good, M = True, list(heads)[0]
+                for d in defs:
+                    r = cu.strip_casts(f, f.kid(d, 1) if d['k'] == 'bin' else f.kid(d, 0))
+                    if r is None or r['k'] != 'bin' or r['op'] != '+':
+                        good = False
+                        continue
+                    a_, b_ = cu.strip_casts(f, f.kid(r, 0)), cu.strip_casts(f, f.kid(r, 1))
+                    if a_ is None or b_ is None or a_['k'] != 'member' or b_['k'] != 'member' or \
+                            set([a_['fld'], b_['fld']]) != set(['offset', 'match_length']) or \
+                            canon(f, f.kid(a_, 0)) != canon(f, f.kid(b_, 0)):
+                        good = False
+                    else:
+                        M = canon(f, f.kid(a_, 0))
+                ctx.ob('R2.1', key + ':end-is-offset-plus-length', good, f.loc(defs[0]) if defs else f.loc(node),
+                       '%s = %s->offset + %s->match_length' % (end, M, M) if good else
+                       '%s is not computed as offset + match_length of one match at every definition' % end)
+                # the iterated match comes from the unconfirmed list of S->chained_to
+                src = [n for n in f.all_nodes() if n['k'] == 'bin' and n['op'] == '=' and M and
+                       canon(f, f.kid(n, 0)) == M and 'unconfirmed_matches' in canon(f, f.kid(n, 1))]
+                ok2 = bool(src) and any(('[%s->chained_to->idx]' % S) in rcanon(f, f.kid(n, 1)) for n in src)
+                ctx.ob('R2.1', key + ':joins-preceding-piece', ok2, f.loc(src[0]) if src else f.loc(node),
+                       '%s walks the unconfirmed matches of %s->chained_to' % (M, S) if ok2 else
+                       'the match compared against %s does not come from unconfirmed_matches[%s->chained_to->idx]'
+                       % (S, S))
+            else:
+                for m in members:
+                    n_sites += 1
+                    key = '%s:discard' % f.name
+                    # the edge on which the match is dropped: the comparison as written, taken true
+                    ok = m[1] == 'max' and m[4] == '<'
+                    ctx.ob('R2.1', key + ':only-when-out-of-reach', ok, f.loc(m[0]),
+                           'an unconfirmed match is dropped only when %s + %s->chain_gap_max < %s' % (m[2], m[3], m[5])
+                           if ok else
+                           'an unconfirmed match is dropped under %s + %s->chain_gap_%s %s %s: matches still '
+                           'reachable by a later piece are lost' % (m[2], m[3], m[1], m[4], m[5]))
     ctx.count('chain_gap_sites', n_sites)
     ctx.require(n_sites >= 4 or ctx.fixture, 'only %d chain-gap tests found in scan.c' % n_sites)
 
@@ -385,11 +463,10 @@ def r2_4(ctx):
         pol = paths.branch_polarity(red, term, idx)
         if pol is None or cond is None:
             return facts
-        c, p2 = paths.normalise_cond(red, cond, pol)
-        bt = _bit_test(red, c) if c is not None else None
-        if bt is None:
+        bo = paths.bit_test_outcome(red, cond, pol)
+        if bo is None:
             return facts
-        X, m = bt
+        X, m, p2 = canon(red, bo[0]), bo[1], bo[2]
         for x in facts:
             if x[0] == 'bit' and x[1] == X and x[2] == m and x[3] != p2:
                 return None                     # the same bit was found the other way round
